@@ -9,6 +9,14 @@ BASE=41dca7a
 export CARGO_NET_OFFLINE=true CARGO_TARGET_DIR=$WT/target
 if [ ! -d $WT ]; then git -C /repo worktree add --detach $WT $BASE >/dev/null 2>&1 || exit 2; fi
 cd $WT && git checkout -q -- . && git clean -fdq -e target
+# round-1 seeds were written against the pinned snapshot, later rounds against the repaired tree: use the newest base the patch applies to
+USED=""
+case "$NAME" in *-a|*-b) ORDER="$BASE $(git -C /repo rev-parse main)";; *) ORDER="$(git -C /repo rev-parse main) $BASE";; esac
+for B in $ORDER; do
+  git checkout -q --detach $B
+  if git apply --check $SD/patch.diff 2>/dev/null; then USED=$B; break; fi
+done
+if [ -z "$USED" ]; then echo "{\"name\":\"$NAME\",\"error\":\"patch applies to neither main nor the snapshot\"}" > $SD/confirm.json; exit 1; fi
 DEMO_PATH=$(python3 -c "import json;print(json.load(open('$SD/meta.json')).get('demo_path','tests/seed_demo.rs'))")
 DEMO_NAME=$(basename $DEMO_PATH .rs)
 git apply $SD/patch.diff || { echo "{\"name\":\"$NAME\",\"error\":\"patch does not apply\"}" > $SD/confirm.json; exit 1; }
@@ -22,7 +30,7 @@ rm -f $DEMO_PATH
 git checkout -q -- . 
 python3 - <<PY
 import json
-json.dump(dict(name="$NAME", suite_with_patch="""$SUITE""".strip(), demo_exit_with_patch=$WITH, demo_exit_without_patch=$WITHOUT,
+json.dump(dict(name="$NAME", base="$USED", suite_with_patch="""$SUITE""".strip(), demo_exit_with_patch=$WITH, demo_exit_without_patch=$WITHOUT,
   confirmed=("failed" not in """$SUITE""" and "passed" in """$SUITE""" and $WITH!=0 and $WITHOUT==0)), open("$SD/confirm.json","w"), indent=1)
 PY
 cat $SD/confirm.json
